@@ -39,7 +39,8 @@ func buildTree() (*tree, func(), error) {
 	os.Symlink("sub", filepath.Join(t.root, "link_in"))
 	os.Symlink(out, filepath.Join(t.root, "link_out"))
 	os.Symlink("../outside", filepath.Join(t.root, "sub", "link_out"))
-	lasts := []string{"sub", "..", "", "link_out", "link_in", "nope", "x"}
+	// "root": a name that collapses to the root itself must not become the sibling <root>-<guid>
+	lasts := []string{"sub", "..", "", "link_out", "link_in", "nope", "x", "root", "outside"}
 	for _, l := range lasts {
 		fn := l + "-" + guid.String()
 		for _, d := range []string{base, out, filepath.Join(out, "sub"), "/tmp"} {
